@@ -2,9 +2,9 @@
 """regenerates MANIFEST.json from the table below (single source of truth for what is claimed)"""
 import json, os
 V = os.path.dirname(os.path.dirname(os.path.abspath(__file__)))
-TECH = "bounded symbolic execution of the real modules (sxl import-hook lifting) + z3 SMT; counterexamples replayed on the unmodified code"
+TECH = "bounded symbolic execution of the real modules (sxl import-hook lifting) + z3 SMT (sampled obligations re-decided by cvc5 on the exact encoding); counterexamples replayed on the unmodified code"
 NOTE = ("Trusted: CPython 3.12, the sxl AST rewriter and the bit-precise stand-ins for bitarray/numpy/bytes (validated on every run by the "
-        "repository's 204 tests under the hook and by replaying every witness/counterexample on the real types), z3 5.1.0, the reference "
+        "repository's 204 tests under the hook and by replaying every witness/counterexample on the real types), z3 5.1.0 (a sample of discharged obligations is re-decided by cvc5 1.4.0), the reference "
         "oracle written in props/<id>.py. Nothing is claimed outside the bounds listed in the evidence file.")
 CLAIMED = {
     "C05": ("Every obligation (bitwise/table CRC == independent polynomial-division reference, front-end inversion/mask/byte order, check<=>computed value, "
@@ -14,7 +14,7 @@ CLAIMED["C06"] = ("For each of the 7 block codes: systematic encoder, generate =
                   "(all 2^n words in one query), minimum distance by a cardinality constraint, single-error repair at a symbolic position, (16,11,4) double errors "
                   "reported uncorrectable. Complete for the property's quantifier (no bound left out).", "6/C06")
 CLAIMED["C02"] = ("All 2^96 messages are covered in every run (message bits symbolic). quick: no error, all 196 single errors (split and symbolic position), a seeded "
-                  "subset (~3,000) of the 19,110 double errors; thorough: all 19,306 patterns of weight <= 2.", "6/C02")
+                  "subset (~3,700, one pattern per path) of the 19,110 double errors; thorough: all 19,306 patterns of weight <= 2.", "6/C02")
 CLAIMED["C09"] = ("All 2^72 / 2^28 / 2^11 messages (message bits symbolic): extraction, row Hamming codes, column parities, checksum read-back == computed checksum, "
                   "three encode input forms agree. Complete for the property's quantifier.", "6/C09")
 CLAIMED["C10"] = ("All 2^144 blocks as bits and bytes (decode(encode(x)) == x, 196 bits out), both permutation identities over symbolic arrays, symbol-mapping layers "
@@ -37,7 +37,7 @@ CLAIMED["C01"] = ("Data bursts: payload = every object the PDU decoders produce 
 CLAIMED["C12"] = ("Every implemented (service, opcode) of RRS/LP/TMP/RCP: the PDU is obtained by parsing a frame with symbolic payload octets, reliable/confirmed flags and "
                   "checksum octet (all in-range field values), then framing (service byte, opcode, length field, independent checksum, terminator, len()), parse -> serialise "
                   "equality, field equality, flags forced both ways, nesting in HRNP (length, ones-complement checksum, re-parse) and in HSTRP with 0..2 options. GPS text "
-                  "fields are concrete witnesses, not solver-decided.", "6/C12")
+                  "fields are concrete witnesses, not solver-decided (also the GPS block built from float fields: declared split over boundary witnesses).", "6/C12")
 CLAIMED["C16"] = ("TMS (3 PDU types) and ARS (5 PDU types) built through the constructors with symbolic addresses, sequence numbers, message octets, identifier characters, "
                   "refresh times and header flags: leading length == bytes that follow, parse gives equal fields, parse -> serialise gives equal bytes.", "6/C16")
 CLAIMED["C13"] = ("72-octet frames with symbolic sequence number, colour nibble, both ids, all reserved octets, source port and all 264 payload bits (centre not a SYNC pattern), "
@@ -66,10 +66,12 @@ CLAIMED["C15"] = ("Documents generated from the tables of the current source: ev
 CLAIMED["C08"] = ("All histories of depth 2 over a 10-class burst alphabet and of depth 3 over a 6-class core alphabet (library-serialised bursts; data-block octets and group address "
                   "symbolic; blocks-to-follow / preamble counts from small pools), a monitor over the observer log: processing never fails, 'ended' only after an open 'started' "
                   "of the same kind with the right header type, idle + fresh stream id afterwards, A-F labelling, rx sequence numbers mod 256 with restart, raising observers, "
-                  "two timeslots. The inductive one-step harness of the design was not built; histories beyond the depth are not claimed.", "6/C08")
-CLAIMED["C19"] = ("2-safety over histories g, f, g: for 36 codec entry points (CRC, FEC, PDU, burst incl. default-constructed, Hytera, Motorola) with ALL arguments symbolic, every "
-                  "ordered pair inside a family plus every g against the burst / CRC-CCITT / BPTC-decode entry points: same result (or same failure) for the same arguments, "
-                  "argument buffers unchanged, results are fresh objects. thorough: all ordered pairs and histories of length 3 inside the families.", "6/C19")
+                  "two timeslots; the blocks handed over are exactly the PDUs received on that timeslot since the start (also for 5-burst interleavings of two timeslots). One step from a state "
+                  "with an ARBITRARY 8-bit sequence counter and last voice label covers the two unbounded counters. Histories beyond the depths are not claimed.", "6/C08")
+CLAIMED["C19"] = ("2-safety: g(B) in the import-time state vs. g(B) after f(A) started from the import-time state (the library's process-global state is reset between the reference "
+                  "call and the history), for ~110 codec entry points (CRC, FEC, PDU, burst incl. default-constructed, every implemented Hytera (service, opcode), Motorola) with ALL "
+                  "arguments symbolic and a symbolic wall clock; every ordered pair inside a family plus every g against the burst / CRC-CCITT / BPTC-decode entry points: same result "
+                  "(or same failure), argument buffers unchanged, mutable defaults unchanged, results are fresh objects. thorough: all ordered pairs and histories of length 3 inside the families.", "6/C19")
 NOT_YET = {}
 props = [json.loads(l) for l in open(os.path.join(V, "properties.jsonl"))]
 checks = []
